@@ -1258,7 +1258,7 @@ func (r *replicateChannelHandler) innerHandleReplicateMsg(forward bool, msg *api
 	verifYield("start", msgPack)
 	defer verifYield("done", msgPack)
 	p := r.handlePack(forward, msgPack, msg.TaskID)
-	if p == api.EmptyMsgPack {
+	if p == nil || p == api.EmptyMsgPack {
 		return
 	}
 	p.CollectionID = msg.CollectionID
